@@ -65,7 +65,12 @@ namespace BitSerializer::Csv::Detail
 		bool ParseNextLine(std::vector<CValueMeta>& out_values);
 		std::string_view UnescapeValue(char* beginIt, const char* endIt);
 
+#ifdef BITSERIALIZER_VERIF_CSV_CHUNK_SIZE
+		// Verification hook: lets the correspondence harness reach every buffer alignment with short inputs
+		Convert::Utf::CEncodedStreamReader<char, BITSERIALIZER_VERIF_CSV_CHUNK_SIZE> mEncodedStreamReader;
+#else
 		Convert::Utf::CEncodedStreamReader<char> mEncodedStreamReader;
+#endif
 		std::string mDecodedBuffer;
 		const bool mWithHeader;
 		const char mSeparator;
